@@ -108,12 +108,19 @@ def hardlink_archive(root, rnd):
     entry(1, "x/emptydir", b"", 0)
     entry(2, "x/sym", b"tiny1", 0)
     entry(3, "x/hl_last", b"tiny4", 0)
+    # a chain of hard links to hard links (h000 -> origin, h001 -> h000, ...): each one needs its predecessor on disk,
+    # so they have to be made in archive order whatever the worker count
+    entry(0, "chain/origin", b"chain origin\n", 0)
+    chain = []
+    for i in range(60):
+        entry(3, "chain/h%03d" % i, (b"origin" if i == 0 else b"h%03d" % (i - 1)), 0)
+        chain.append(("chain/h%03d" % i, "chain/origin"))
     spec = os.path.join(root, "hl.spec")
     with open(spec, "w") as f:
         f.write("\n".join(rows) + "\n")
     p = subprocess.run([core.harness_bin("mkarchive"), spec, os.path.join(root, "hl.pna")], stdout=subprocess.PIPE, stderr=subprocess.PIPE)
     assert p.returncode == 0, p.stderr[-500:]
-    return [("x/hl_first", "x/slow.bin"), ("hl_top", "x/tiny0"), ("x/hl_last", "x/tiny4")]
+    return [("x/hl_first", "x/slow.bin"), ("hl_top", "x/tiny0"), ("x/hl_last", "x/tiny4")] + chain
 
 
 def sha_files(paths):
